@@ -181,6 +181,12 @@ func (e *Exec) slicePC(q *Term) []*Term {
 
 // decide makes an n-way decision; constraint(i) gives the constraint of option i.
 func (e *Exec) decide(n int, constraint func(i int) *Term) int {
+	// package initialisers run once per term table, outside any path: a choice made there (the order of a map
+	// range) is not a decision of the path - recording it would shift the decision prefixes of every later path,
+	// which start from the snapshot taken after initialisation. The first option is taken.
+	if e.lenient {
+		return 0
+	}
 	pos := len(e.trace)
 	if pos < len(e.prefix) {
 		d := e.prefix[pos]
@@ -566,6 +572,7 @@ func (e *Exec) run(fr *frame) Value {
 				}
 				fr.defers = nil
 			case *ssa.Panic:
+				e.panicAt = strings.Join(e.stack[max(0, len(e.stack)-5):], " <- ")
 				panic(goPanic{e.get(fr, in.X)})
 			case *ssa.Store:
 				p := e.get(fr, in.Addr).(PtrVal)
